@@ -448,6 +448,8 @@ class Executor:
             ref = self.ref.request(key, inp['text'], inp['stem'], spec['options'],
                                    self.params.get(spec.get('param')) if spec.get('param') else None,
                                    call.get('suffix', '.pdb'))
+            if 'slow' in ref:
+                return {'slow': True}
             if call['kind'] == 'steps':
                 self.ref_digests.append([len(self.events), iid, record.digest(ref), key[:16]])
                 if 'exc' in ref:
@@ -634,6 +636,14 @@ class Executor:
                 call['stream_kind'] = 'unseekable'
             armed = self.arm_fault(fault, call)
         exp = self.expected(call)
+        if exp.get('slow'):
+            # the reference gave up (see refserver.REF_TIME_LIMIT): the call
+            # would take as long here; it is skipped, not compared
+            self.stats['skipped_slow'] = self.stats.get('skipped_slow', 0) + 1
+            self.events.append({'i': i, 'step': record.digest(step), 'fired': None,
+                                'orders': None, 'status': 'skipped', 'outcome': None,
+                                'verdict': 'skipped-slow'})
+            return True
         self.probe_heap('expected%d' % i)
         if self.files is not None:
             self.files.reset_counts()
